@@ -38,6 +38,8 @@ type FieldMapping struct {
 	Source   string
 	Function *method.Definition
 	Ignore   bool
+	// mapped is set once a goverter:map line for the field was read.
+	mapped bool
 }
 
 func (m *Method) Field(targetName string) *FieldMapping {
@@ -125,6 +127,13 @@ func parseMethodLine(ctx *context, c *Converter, m *Method, value string) (err e
 			return err
 		}
 		f := m.Field(target)
+		switch {
+		case f.mapped:
+			return fmt.Errorf("the field %q is mapped more than once", target)
+		case f.Ignore:
+			return fmt.Errorf("the field %q is ignored and mapped", target)
+		}
+		f.mapped = true
 		f.Source = source
 
 		if custom != "" {
@@ -145,6 +154,9 @@ func parseMethodLine(ctx *context, c *Converter, m *Method, value string) (err e
 			return fmt.Errorf("missing target field")
 		}
 		for _, f := range fields {
+			if m.Field(f).mapped {
+				return fmt.Errorf("the field %q is ignored and mapped", f)
+			}
 			m.Field(f).Ignore = true
 		}
 	case "update":
